@@ -6,4 +6,22 @@ ENGINE = 'E3'
 
 
 def run(ctx):
-    return collect('C03', ctx, ('c03',), 'onion')
+    res = collect('C03', ctx, ('c03',), 'onion')
+    from vlib.e1 import Ob, run_obligations
+    import harness.c03 as H
+    NL = H.NLISTS
+    tmo = 900 if ctx.thorough else 100
+    obs = [
+        Ob('merge_levels', 'ob_merge', '', packed=[('outer_i', NL), ('inner_i', NL), ('mid_sel', (4 + NL) if ctx.thorough else 4)],
+           cells=[('outer%d' % i, [{'outer_i': i}]) for i in range(NL)], timeout=tmo, twin_fn='tw_merge', twin_pre=[{'outer_i': 7}], confirm='confirm_merge',
+           desc='application-level, (embedded application-level,) route-level middleware lists of <= 2 instances over 5 types (two unrelated unique types, a unique '
+                'SUBCLASS of one of them, a non-unique type, a non-reorderable unique type): the request middlewares actually run in the order "outermost '
+                'list first, a unique type once at its outermost position"; ValueError exactly for a repeated non-reorderable unique type'),
+        Ob('merge_unit', 'ob_merge_unit', '', packed=[('new_i', NL), ('old_i', NL)], cells=[('new%d' % i, [{'new_i': i}]) for i in range(NL)], timeout=tmo,
+           desc='merge_middlewares(old, new) on the same catalogue; the input list is not mutated'),
+    ]
+    res.merge(run_obligations('C03', 'harness.c03', obs, ctx.tier))
+    res.functions_encoded += ['clastic.middleware.core.merge_middlewares', 'Middleware.__eq__/__ne__', 'BoundRoute.__init__ (merge call)', 'SubApplication.bind_all']
+    res.bounds.update(dict(merge='lists of <= 2 middleware instances per level over 5 types, 2 or 3 levels'))
+    res.outside += ["one level's own list containing the same unique type twice (no documented outcome)"]
+    return res
